@@ -61,6 +61,7 @@ struct Ctx {
     weaks: BTreeMap<i64, WeakObservable<Elem, AsyncLock>>,
     flags: BTreeMap<i64, Arc<Flag>>,
     nv: i64,
+    reuse_wakers: bool,
 }
 
 fn ret(t: &str, v: i64) -> Value {
@@ -337,7 +338,14 @@ impl Ctx {
                 ret("Nil", 0)
             }
             "Poll" | "PollNext" | "PollNextRef" => {
-                let flag = Flag::new();
+                // waker policy: a fresh waker per poll, or the subscriber's one waker again (cleared first)
+                let flag = match self.flags.get(&h) {
+                    Some(f) if self.reuse_wakers => {
+                        f.clear();
+                        f.clone()
+                    }
+                    _ => Flag::new(),
+                };
                 let waker = waker_of(&flag);
                 let mut cx = Context::from_waker(&waker);
                 let sub = self.subs.get_mut(&h).expect("sub");
@@ -428,7 +436,7 @@ impl Ctx {
 }
 
 pub fn run_behaviour(tr: &Tracer, run: i64, ops: &[Value], nv: i64) {
-    let mut cx = Ctx { nv, ..Default::default() };
+    let mut cx = Ctx { nv, reuse_wakers: geti(&ops[0], "n") == 1, ..Default::default() };
     let first = &ops[0];
     assert_eq!(gets(first, "op"), "New");
     let shared = geti(first, "b") != 0;
